@@ -248,8 +248,24 @@ class Ctx:
 
         def one(job):
             cmd, logp, stats, scs = job
-            r = subprocess.run(cmd, stdout=subprocess.PIPE, stderr=subprocess.STDOUT, text=True, timeout=3000,
-                               env=dict(os.environ, **env) if env else None)
+            hangs = []
+            while True:
+                e2 = dict(os.environ, **(env or {}))
+                if hangs:
+                    e2["VT_SKIP"] = ",".join(str(h["idx"]) for h in hangs)
+                r = subprocess.run(cmd, stdout=subprocess.PIPE, stderr=subprocess.STDOUT, text=True, timeout=3000, env=e2)
+                if r.returncode == 3 and os.path.exists(logp + ".hang") and len(hangs) < 6:
+                    # the harness watchdog: one scenario made no progress; record it, re-run the batch without it
+                    h = json.load(open(logp + ".hang"))
+                    if any(x["idx"] == h["idx"] for x in hangs):
+                        raise ToolError("watchdog reported scenario %s twice" % h["idx"])
+                    hangs.append(h)
+                    continue
+                break
+            if hangs and r.returncode == 0:
+                with open(logp, "a") as lf:
+                    for h in hangs:
+                        lf.write(json.dumps(h) + "\n")
             if r.returncode != 0:
                 raise ToolError("harness failed: %s\n%s" % (" ".join(cmd), r.stdout[-3000:]))
             tag = "%s-%s-%s" % (self.prop, family, os.path.basename(logp).split(".")[0])
